@@ -264,3 +264,67 @@ def go_title_guess(w):
             out.append(ch)
         prev_letter = ch.isalpha() or ch.isdigit() or ch == "_"
     return "".join(out)
+
+
+# ---------------------------------------------------------------- complete cells on the real code
+
+def sep_alphabet(sep):
+    r = sep_recipe(sep)
+    if r is None or r.length < 1:
+        return None, 0
+    return r.alphabet(), r.length
+
+
+def cell_tuples(size, L, sep, cap):
+    """all choice tuples: (cap choice, word indices, separator index vectors, entropy-call vector)"""
+    import itertools
+    A, sl = sep_alphabet(sep)
+    if cap == "one":
+        capc = [(i,) for i in range(L)]
+    elif cap == "random":
+        capc = list(itertools.product(range(2), repeat=L))
+    else:
+        capc = [()]
+    words = list(itertools.product(range(size), repeat=L))
+    if A:
+        one_sep = list(itertools.product(range(len(A)), repeat=sl))
+        seps = list(itertools.product(one_sep, repeat=L - 1))
+    else:
+        seps = [()]
+    for c in capc:
+        for w in words:
+            for s in seps:
+                yield c, w, s
+
+
+def run_wl_cell(ctx, l, L, sep, cap, limit=6000):
+    """runs every choice tuple of the cell on the real code; returns list of (tuple, parsed result, order, titles)"""
+    rng = ctx.rng
+    size = py_size(l)
+    A, sl = sep_alphabet(sep)
+    tuples = list(cell_tuples(size, L, sep, cap))
+    if len(tuples) > limit:
+        return None
+    lines = []
+    for k, (c, w, s) in enumerate(tuples):
+        words = []
+        if cap == "one":
+            words.append(chargen.word_for_index(rng, L, c[0]))
+        elif cap == "random":
+            words += [chargen.word_for_index(rng, 2, x) for x in c]
+        for i in range(L):
+            words.append(chargen.word_for_index(rng, size, w[i]))
+            if i < L - 1 and A:
+                words += [chargen.word_for_index(rng, len(A), x) for x in s[i]]
+        if A and sep[0] != "char":
+            words += [0] * sl          # the Entropy() call
+        lines.append("t%d %s" % (k, wlgen_line(l, L, sep, cap, chargen.DEFAULT_BUDGET, words)))
+    impl, note = core.run_impl(lines)
+    ctx.evaluations += len(lines)
+    ctx.count("cell_tuples", len(lines))
+    out = []
+    for k, tp in enumerate(tuples):
+        a = impl.get("t%d" % k)
+        order, titles, rest = parse_pre(a) if a else (None, None, None)
+        out.append((tp, chargen.parse_password(rest) if rest else None, order, titles, lines[k].split(" ", 1)[1], a))
+    return out
